@@ -789,6 +789,18 @@ pub fn gen_query(rng: &mut Rng, keyspace: usize) -> Query {
             pairs[2] = pairs[0]; // three times
         }
     }
+    // runs of adjacent pairs under one key with (mostly) different messages, as a spend with
+    // several conditions for one key produces them; the key may be an invalid one
+    if n >= 2 && rng.chance(1, 7) {
+        let start = rng.usize_below(n - 1);
+        let len = 2 + rng.usize_below((n - start - 1).min(3));
+        if rng.chance(1, 4) {
+            pairs[start].0 = INF;
+        }
+        for i in start + 1..(start + len).min(n) {
+            pairs[i].0 = pairs[start].0;
+        }
+    }
     // one query in 40: the valid key and, right after it, the key outside the subgroup that has
     // the same fingerprint
     if rng.chance(1, 40) {
